@@ -175,6 +175,11 @@ def opQuery (payload : String) : String :=
       let (q, refuse) ← decQuery (← j.getObjVal? "q")
       let A ← decTableJ (← j.getObjVal? "A")
       let B ← match optField j "B" with | some b => decTableJ b | none => pure []
+      -- the join table's header (when it has one) sets the minimal width of the LEFT JOIN null record
+      let hb : Nat := match optField j "header_b" with
+        | some h => (match h.getArr? with | .ok a => a.size | .error _ => 0)
+        | none => 0
+      let q := { q with join := q.join.map (fun js => { js with nullWidth := hb }) }
       pure (q, refuse, A, B) : Except String _) with
     | .error e => "bad-case " ++ e
     | .ok (q, refuse, A, B) =>
